@@ -182,6 +182,19 @@ CLAIMS: dict[str, tuple[str, str, str, str]] = {
         "Lean 4 proof (termination/totality of the dispatch loops under rule contracts) + contract monitoring + crash/hang sweeps",
         "§6 C01",
     ),
+    "C03": (
+        "PARTIAL (engine level FULL): loop_maps_staged — under the map contract of the rules, for every rule chain, "
+        "line table and range, the tokens a block loop adds come in stages with non-empty, in-range, strictly "
+        "increasing and pairwise disjoint line ranges inside the loop's own range (maps in range, non-empty, "
+        "ordered between siblings); container_map — the end-line patch of a container encloses the nested loop's "
+        "stages (maps nest). MISSING: the per-rule map contract is a hypothesis (monitored on every real rule call); "
+        "'starts/ends on a non-blank line', inline content lines and coverage of every non-blank line are decided "
+        "by the oracle (the property's predicate on streams and env; bounded-exhaustive line documents). Known "
+        "finding K-C03-1 (str.strip() drops lines made of Unicode blanks from inline content).",
+        NOTE + "Rule contracts assumed by the engine theorem and checked at run time.",
+        "Lean 4 proof (staging invariant of the dispatch loop under rule contracts) + contract monitoring + map predicate oracle",
+        "§6 C03",
+    ),
 }
 
 PENDING_REASON = "check under construction in this session (Lean model + theorems not yet committed); not claimed until its check exists"
